@@ -31,6 +31,10 @@ def handleL6 (cmd : String) (args : List String) : Option String :=
       let sh ← decSh sh; let slot ← decSlot slot; let t ← charsOfHex t
       let r := run (stepOf sh) (slotCtx sh slot) (slotEscape sh slot t)
       pure s!"{fmtSt r.1} {b01 r.2} ctx={fmtSt (slotCtx sh slot)}").getD "bad-op")
+  | "scanfrom", [sh, slot, t] => some ((do
+      let sh ← decSh sh; let slot ← decSlot slot; let t ← charsOfHex t
+      let r := run (stepOf sh) (slotCtx sh slot) t
+      pure s!"{fmtSt r.1} {b01 r.2} ctx={fmtSt (slotCtx sh slot)}").getD "bad-op")
   | "scan", [sh, t] => some ((do
       let sh ← decSh sh; let t ← charsOfHex t
       pure (fmtSt (run (stepOf sh) (.n true) t).1)).getD "bad-op")
